@@ -540,7 +540,10 @@ def v1_configs(kind, tier):
                 mk1("v1alonezero", [3, 2, 1], {3: 1, 2: 2, 1: 3}, 1, "rate", 3, 2, 3, extra=al)]   # fatal by the subset definition: F4
     if kind == "fault":
         return [mk1("v1fault", [2, 1], {2: 1, 1: 2}, 3, "rate", 2, 2, 6, graceful=True, faults=1),
-                mk1("v1faultfair", [3, 2, 1], {3: 1, 2: 2, 1: 3}, 4, "fair", 3, 1, 4, graceful=True, faults=1)]
+                mk1("v1faultfair", [3, 2, 1], {3: 1, 2: 2, 1: 3}, 4, "fair", 3, 1, 4, graceful=True, faults=1),
+                # priority values 2^64-1, 2, 1 (identifiers 3, 2, 1 in the model and in the logs)
+                mk1("v1hugefault", [3, 2, 1], {3: 1, 2: 2, 1: 3}, 4, "fair", 3, 1, 4, graceful=True, faults=1,
+                    vals={"3": "18446744073709551615", "2": "2", "1": "1"})]
     raise ValueError(kind)
 
 
